@@ -9,6 +9,7 @@ import (
 	"encoding/csv"
 	"errors"
 	"fmt"
+	"io"
 	"strings"
 
 	"github.com/go-openapi/runtime"
@@ -276,6 +277,7 @@ type verdict struct {
 	label       string // outcome kind, for the evidence
 	nontrivial  bool
 	ambiguous   bool
+	pipeErr     bool // chunked WriterTo: the closed pipe won over the parser's error
 	out         Outcome
 }
 
@@ -396,6 +398,11 @@ func (x *ctx) judge(kind string, o Opts, pre int, out Outcome) (v verdict) {
 	}
 	if out.Err != nil {
 		v.label = "error: " + sentinel(out.Err).Error()
+		if anyErrorOK(kind) {
+			// which goroutine's error is returned is scheduling: one label, so that the evidence is stable
+			v.label = "error: the parser's or the closed pipe (chunked WriterTo)"
+			v.pipeErr = errors.Is(out.Err, io.ErrClosedPipe)
+		}
 	} else {
 		d := x.delivered(kind, o, out)
 		switch {
